@@ -1082,7 +1082,7 @@ ByteString DBObject::getByteStringValue(CK_ATTRIBUTE_TYPE type)
 	}
 }
 
-CK_ATTRIBUTE_TYPE DBObject::nextAttributeType(CK_ATTRIBUTE_TYPE)
+CK_ATTRIBUTE_TYPE DBObject::nextAttributeType(CK_ATTRIBUTE_TYPE type)
 {
 	MutexLocker lock(_mutex);
 
@@ -1097,8 +1097,35 @@ CK_ATTRIBUTE_TYPE DBObject::nextAttributeType(CK_ATTRIBUTE_TYPE)
 		return false;
 	}
 
-	// FIXME: implement for C_CopyObject
-	return CKA_CLASS;
+	// Find the smallest attribute type above the given one in the attribute tables;
+	// CKA_CLASS (= 0) marks the end of the iteration, as in ObjectFile
+	static const char* tables[] = { "attribute_boolean", "attribute_integer", "attribute_binary", "attribute_array", "attribute_datetime" };
+	bool found = false;
+	CK_ATTRIBUTE_TYPE next = CKA_CLASS;
+
+	for (size_t i = 0; i < sizeof(tables) / sizeof(tables[0]); i++)
+	{
+		DB::Statement statement = _connection->prepare(
+					"select min(type) from %s where object_id=%lld and type>%lu",
+					tables[i], _objectId, type);
+		if (!statement.isValid())
+		{
+			ERROR_MSG("Preparing the next attribute statement failed");
+			return CKA_CLASS;
+		}
+
+		DB::Result result = _connection->perform(statement);
+		if (!result.isValid() || result.fieldIsNull(1)) continue;
+
+		CK_ATTRIBUTE_TYPE candidate = (CK_ATTRIBUTE_TYPE) result.getULongLong(1);
+		if (!found || candidate < next)
+		{
+			next = candidate;
+			found = true;
+		}
+	}
+
+	return found ? next : CKA_CLASS;
 }
 
 // Set the specified attribute
